@@ -31,12 +31,18 @@ def run(tier, seed):
         rows[mode] = r['edges']
         args = ['config-grid', '-edges', ep, '-thruserv', srv]
         results.append(vlib.run_vh_sharded(args, 12, timeout=3000))
+    # the circle closed: a TURN server that really answers (pion/turn inside the sandbox, coturn's use-auth-secret scheme);
+    # thruserv started with each spelling of its address, the credentials message taken from a real client connection,
+    # the real ice.Prober built with it must obtain a relay allocation under the peer's id
+    ta = vlib.run_vh_sharded(['turn-alloc', '-thruserv', srv], 6, timeout=1200)
+    results.append(ta)
     res = vlib.merge_results(results)
     for viol in res['violations']:
         v.violation(viol['sig'], viol.get('replay'))
     v.coverage = dict(evaluations=res['behaviours'], distinct_nontrivial=res['distinct'],
                       rule="one real server process per enumerated configuration (flags: <=2 (thorough: <=3) flags off default + all-small + all-zero; turn: spelling x peer-id class); non-trivial = every configuration except the all-default one",
-                      samples=res['samples'][:8], exhaustive=True, configurations=rows)
+                      samples=res['samples'][:8], exhaustive=True, configurations=rows,
+                      relay_allocations_with_minted_credentials=dict(runs=ta['behaviours'], outcomes=ta['extra'].get('outcomes')))
     v.assumptions = ["'small' values still permit one create and two connects (bursts of 3); a host asking for more receivers than the server allows is rightly refused",
-                     "TURN server itself is not contacted (credentials are parsed, not used)"]
+                     "the TURN server of the allocation runs is pion/turn on loopback (UDP and TCP, no TLS); turns: spellings are parsed, not dialled"]
     return v.finish()
